@@ -10,12 +10,28 @@ struct Inst {
     steps: u64,
     ev: Vec<String>,
     done: bool,
+    mods: std::collections::HashMap<String, String>,
 }
 
+/// a program may start with a line `//MODS {"<absolute path>": "<source>", ...}`: it is then prepared as the
+/// module /m/main and the listed modules are supplied when requested; its export names join the transcript
 fn new_inst(src: &str) -> Inst {
     let (mut interp, log) = prog::new_interp();
-    let r = interp.prepare(src, None);
-    Inst { interp, log, r: Some(r), steps: 0, ev: vec![], done: false }
+    let mut mods = std::collections::HashMap::new();
+    let mut body = src;
+    let mut path = None;
+    if let Some(rest) = src.strip_prefix("//MODS ") {
+        let (head, tail) = rest.split_once('\n').unwrap_or((rest, ""));
+        if let Ok(serde_json::Value::Object(m)) = serde_json::from_str::<serde_json::Value>(head) {
+            for (k, v) in m {
+                mods.insert(k, v.as_str().unwrap_or("").to_string());
+            }
+        }
+        body = tail;
+        path = Some(tsrun::ModulePath::new("/m/main".to_string()));
+    }
+    let r = interp.prepare(body, path);
+    Inst { interp, log, r: Some(r), steps: 0, ev: vec![], done: false, mods }
 }
 
 /// one host action on an instance: consume the pending StepResult and (unless finished) step once more
@@ -46,11 +62,26 @@ fn advance(i: &mut Inst) {
         }
         Some(Ok(StepResult::Complete(v))) => {
             i.ev.push(format!("C@{}:{}", i.steps, prog::show_value(v.value())));
+            if !i.mods.is_empty() {
+                i.ev.push(format!("X:{}", i.interp.get_export_names().join(",")));
+            }
             i.done = true;
         }
-        Some(Ok(StepResult::NeedImports(_))) => {
-            i.ev.push("NEED".into());
-            i.done = true;
+        Some(Ok(StepResult::NeedImports(reqs))) => {
+            let names: Vec<String> = reqs.iter().map(|q| q.resolved_path.as_str().to_string()).collect();
+            i.ev.push(format!("N@{}:{}", i.steps, names.join(",")));
+            let mut any = false;
+            for n in &names {
+                if let Some(src) = i.mods.get(n) {
+                    any |= i.interp.provide_module(tsrun::ModulePath::new(n.clone()), src).is_ok();
+                }
+            }
+            if !any {
+                i.ev.push("NEED".into());
+                i.done = true;
+                return;
+            }
+            i.r = Some(i.interp.step());
         }
         Some(Ok(StepResult::Done)) => {
             i.ev.push("D".into());
